@@ -96,9 +96,13 @@ _HIDDEN_BUILTIN_TYPES: Dict[str, type] = {
 
 
 def typed_dict_from_dict(d: TypeDict) -> type:
-    return TypedDict(
+    typed_dict: type = TypedDict(
         d["qualname"], {k: type_from_dict(v) for k, v in d["elem_types"].items()}
     )
+    # TypedDict() names the module it is called from; the class stands for the one
+    # recorded in module d["module"], and encoding it again must give d back.
+    typed_dict.__module__ = d["module"]
+    return typed_dict
 
 
 def type_from_dict(d: TypeDict) -> type:
